@@ -16,5 +16,8 @@ func Yield(point string) {}
 // Gate blocks at a named point until released (no-op without the verif tag).
 func Gate(point string) {}
 
+// Step is Yield followed by Gate (no-op without the verif tag).
+func Step(point string) {}
+
 // ID returns a small stable id for an object (0 without the verif tag).
 func ID(obj any) int { return 0 }
